@@ -83,10 +83,26 @@ def build(opd):
     if opd is None:
         return None
     if opd["t"] == "h":
+        if opd.get("subclass"):
+            return _sub_h()(C.dec_h(opd["items"]))  # an instance of a user subclass of H: a histogram like any other
         return C.dec_h(opd["items"])
     if opd["t"] == "p":
         return P(*[C.dec_h(h) for h in opd["dice"]])
     return C.dec_out(opd["v"])
+
+
+def _sub_h():
+    from dyce import H
+
+    global _SUBH
+    try:
+        return _SUBH
+    except NameError:
+        class MyH(H):
+            """a user subclass"""
+
+        _SUBH = MyH
+        return _SUBH
 
 
 def flatten_spec(opd):
@@ -382,6 +398,12 @@ def generate(rnd, tier, scale):
             continue
         l = _rand_opd(rnd, kind, allow_scalar=op in BIN)
         r = _rand_opd(rnd, kind)
+        if rnd.random() < 0.12 and op in BIN and op not in ("and", "or", "xor"):
+            # "neutral-looking" scalars of another numeric type (h // 1, h * 1, h ** 1, h - 0, h + 0.0, h * True ...):
+            # the result is still the relabelled histogram (non-integral outcomes floor, types follow the operator)
+            r = {"t": "s", "v": C.enc_out(rnd.choice([0, 1, 1, -1, True] if op != "pow" else [1, 1, True]))}
+            if op in ("floordiv", "mod", "truediv") and C.dec_out(r["v"]) == 0:
+                r = {"t": "s", "v": "i:1"}
         if is_scalar(l) and is_scalar(r):
             l = _rand_opd(rnd, kind, allow_scalar=False)
         if op == "pow":
@@ -389,6 +411,10 @@ def generate(rnd, tier, scale):
             if is_scalar(l):
                 l = _rand_opd(rnd, kind, allow_scalar=False)
             r = {"t": "s", "v": C.enc_out(rnd.choice([0, 1, 2, 3]))} if rnd.random() < 0.6 else {"t": "h", "items": [["i:%d" % e, rnd.choice([1, 2])] for e in rnd.sample([0, 1, 2, 3], 2)]}
+        if rnd.random() < 0.08:
+            for side in (l, r):
+                if side is not None and side["t"] == "h" and rnd.random() < 0.7:
+                    side["subclass"] = True
         case = dict(op=op, l=l, r=r)
         if op == "within":
             lo, hi = sorted([rnd.randint(-3, 3), rnd.randint(-3, 3)])
